@@ -1031,20 +1031,33 @@ def rule_extremum_siblings(rep, res, entry=None, rule="R-VALUE"):
     entry = entry or res.entry
     fns = {ev.d["callee"] for ev in res.events("call")} | {res.fn}
     n_inst = 0
+    fn_node = None
     def kind(v):
         for n in ast.walk(v):
             if isinstance(n, ast.Call):
                 nm = n.func.attr if isinstance(n.func, ast.Attribute) else n.func.id if isinstance(n.func, ast.Name) else None
-                if nm in ("min", "max", "amin", "amax", "nanmin", "nanmax", "minimum", "maximum"):
+                if nm in ("min", "max", "amin", "amax", "nanmin", "nanmax", "minimum", "maximum", "argmin", "argmax"):
                     return "min" if "min" in nm else "max"
+                if nm == "reduce" and isinstance(n.func, ast.Attribute) and isinstance(n.func.value, ast.Attribute) \
+                        and n.func.value.attr in ("minimum", "maximum"):
+                    return "min" if n.func.value.attr == "minimum" else "max"
+                if nm in ("sort", "partition") and any(k.arg == "axis" and isinstance(k.value, ast.Constant) and k.value.value == 0 for k in n.keywords):
+                    return "min"        # first / last row of a table whose every COLUMN is sorted is its column-wise extremum
         if isinstance(v, ast.Subscript):
             sl = v.slice
-            if isinstance(sl, ast.UnaryOp) and isinstance(sl.op, ast.USub) and isinstance(sl.operand, ast.Constant):
-                return "pick"
-            if isinstance(sl, ast.Constant) and isinstance(sl.value, int) and not isinstance(sl.value, bool):
+            is_pick = (isinstance(sl, ast.UnaryOp) and isinstance(sl.op, ast.USub) and isinstance(sl.operand, ast.Constant)) or (
+                isinstance(sl, ast.Constant) and isinstance(sl.value, int) and not isinstance(sl.value, bool))
+            if is_pick:
+                # the first / last row of a local table that was sorted column by column is an extremum, not a pick
+                if isinstance(v.value, ast.Name) and fn_node is not None:
+                    defs = [a.value for a in ast.walk(fn_node) if isinstance(a, ast.Assign) and len(a.targets) == 1
+                            and isinstance(a.targets[0], ast.Name) and a.targets[0].id == v.value.id]
+                    if defs and all(kind(d) in ("min", "max") for d in defs):
+                        return "min"
                 return "pick"
         return None
     for fn in sorted(fns, key=lambda f: f.qual):
+        fn_node = fn.node
         groups = {}
         for st in ast.walk(fn.node):
             if isinstance(st, ast.Assign) and len(st.targets) == 1 and isinstance(st.targets[0], ast.Subscript) \
